@@ -261,3 +261,92 @@ def rename_contracted(term, contracted, rng, pool, keep=()):
         for s, n in zip(lst, picked):
             sub[s] = get_symbols(n, spin)[0] if spin else get_symbols(n)[0]
     return term.xreplace(sub), sub
+
+
+def normalise_ir(terms):
+    """Drops the process-specific identity (uid) of indices: two indices are the same
+    iff name, space and spin agree (valid for registry indices)."""
+    def nidx(s):
+        return (s[0], s[1], s[2], 0)
+
+    def nf(f):
+        k = f[0]
+        if k == "t":
+            return (k, f[1], f[2], tuple(map(nidx, f[3])), tuple(map(nidx, f[4])), f[5], f[6])
+        if k == "n":
+            return (k, f[1], tuple(map(nidx, f[2])), f[3])
+        if k == "d":
+            return (k, nidx(f[1]), nidx(f[2]))
+        if k == "p":
+            return (k, tuple((t[0], t[1], tuple(nf(g) for g in t[2])) for t in f[1]), f[2])
+        if k in ("F", "Fd"):
+            return (k, nidx(f[1]))
+        if k == "NO":
+            return (k, tuple(nf(g) for g in f[1]))
+        return f
+    return [(t[0], t[1], tuple(nf(g) for g in t[2])) for t in terms]
+
+
+def rename_ir(terms, mapping):
+    """Renames tensors in an IR (configured tensor names -> default names)."""
+    def nm(x):
+        for old, new in mapping:
+            if x == old:
+                return new
+            # amplitudes / densities carry an order suffix
+            if old in mapping.prefix and x.startswith(old) and (x[len(old):].replace("c", "").isdigit()):
+                return new + x[len(old):]
+        return x
+
+    def nf(f):
+        k = f[0]
+        if k == "t":
+            return (k, nm(f[1])) + tuple(f[2:])
+        if k == "n":
+            return (k, nm(f[1])) + tuple(f[2:])
+        if k == "p":
+            return (k, tuple((t[0], t[1], tuple(nf(g) for g in t[2])) for t in f[1]), f[2])
+        return f
+    return [(t[0], t[1], tuple(nf(g) for g in t[2])) for t in terms]
+
+
+def compare_ir(irA, irB, T, model, *, val_opts=None, timeout_ms=20000, seed=0, spec_extra=None):
+    """Value comparison of two IRs (e.g. shipped from other processes).  A solver model
+    is replayed by evaluating both monomial lists with exact numbers."""
+    out = Outcome()
+    t0 = time.time()
+    vars_ = Vars()
+    val = FreeValuation(vars_, model, spec_from(irA, irB, extra=spec_extra), **(val_opts or {}))
+    pairs = []
+    for tau in model.assignments(sorted(T)):
+        try:
+            pairs.append((len(pairs), expr_value(irA, model, val, tau), expr_value(irB, model, val, tau)))
+        except Undefined:
+            continue
+        out.n_monomials += len(pairs[-1][1]) + len(pairs[-1][2])
+    out.encode_s = time.time() - t0
+    out.n_assignments, out.n_vars = len(pairs), len(vars_)
+    if not pairs:
+        out.status = "skipped"
+        return out
+    v = check_equal(pairs, vars_, timeout_ms=timeout_ms, seed=seed)
+    out.queries, out.solver_s, out.stage2 = 1, v.solver_s, int(v.stage == 2)
+    if v.status == "unsat":
+        out.unsat, out.status = 1, "equal"
+    elif v.status == "sat":
+        out.sat = 1
+        num = NumericValues(vars_, v.model)
+        lab = v.which if v.which is not None else 0
+        try:
+            va, vb = num.ml(pairs[lab][1]), num.ml(pairs[lab][2])
+        except ZeroDivisionError:
+            raise HarnessError("model hits a pole in the replay")
+        if (va - vb).simplify() == 0:
+            raise HarnessError("solver model does not reproduce (IR comparison)")
+        out.status = "differ"
+        out.witness = {"model_space": model.tag, "stage": v.stage, "value_A": str(va), "value_B": str(vb),
+                       "tensor_values": {vars_.describe(k): str(x) for k, x in sorted(num.vals.items())
+                                         if x != 0 and vars_.keys[k][0] != "I"}}
+    else:
+        out.unknown, out.status = 1, "unknown"
+    return out
